@@ -764,4 +764,37 @@ theorem CInv.init (dv : DeckVariant) (id : Nat) : CInv dv ⟨St.init, Deck.new i
   ⟨St.init_ok, ⟨by simp [St.init, dget?, Deck.new], by simp [Deck.new], by simp [Deck.new]⟩,
     ⟨Or.inl ⟨by simp [St.queue_def, St.init, dget?], rfl⟩, by simp [Deck.new]⟩⟩
 
+
+/-! ### the repaired variant: admissible = in the domain of the property -/
+
+/-- the domain of the property at this layer: the request is well-formed; the info section is only read by
+`query_decks`; requests on the manager's memory go through the manager -/
+def CEv.Dom (c : CSt) : CEv → Prop
+  | .query tag _ _ => (Ev.read tag c.d.id Gen.C06.deckInfoAddr Gen.C06.deckInfoSize).WF
+  | .dread tag base address len _ _ => (Ev.read tag c.d.id (address + base) len).WF ∧ address + base ≠ Gen.C06.deckInfoAddr
+  | .dwrite tag base address data _ _ p => (Ev.write tag c.d.id (address + base) data true p).WF
+  | .mem e => e.WF ∧ e.NotRequestOn c.d.id
+
+def CDom : CSt → List CEv → Prop
+  | _, [] => True
+  | c, e :: es => e.Dom c ∧ CDom (cstep DeckVariant.fixed c e).c es
+
+theorem CEv.adm_fixed_of_dom {c : CSt} {e : CEv} (h : e.Dom c) : e.Adm DeckVariant.fixed c := by
+  cases e with
+  | query tag rid hf => exact ⟨h, Or.inl rfl, fun _ => rfl⟩
+  | dread tag base address len rid hf => exact ⟨h.1, h.2, Or.inl rfl, fun _ => rfl⟩
+  | dwrite tag base address data rid hf p => exact ⟨h, fun _ => rfl⟩
+  | mem e => exact h
+
+theorem CAdm_fixed_of_dom : ∀ (evs : List CEv) (c : CSt), CDom c evs → CAdm DeckVariant.fixed c evs
+  | [], _, _ => trivial
+  | e :: es, c, h => ⟨CEv.adm_fixed_of_dom h.1, CAdm_fixed_of_dom es _ h.2⟩
+
+instance (c : CSt) (e : CEv) : Decidable (e.Dom c) := by cases e <;> simp only [CEv.Dom] <;> infer_instance
+instance instDecidableCDom : (c : CSt) → (evs : List CEv) → Decidable (CDom c evs)
+  | _, [] => isTrue trivial
+  | c, e :: es =>
+    have := instDecidableCDom (cstep DeckVariant.fixed c e).c es
+    by simp only [CDom]; infer_instance
+
 end CfVerif.C06
